@@ -26,7 +26,7 @@ struct ScriptCfg {
 static rc::Gen<long long> nameIdx() { return sized(0, 40); }
 static rc::Gen<long long> trail() { return g::elementOf(std::vector<long long>{0, 0, 0, 0, 1, 2, 3}); }
 static rc::Gen<long long> descLen() {
-    return g::weightedOneOf<long long>({{5, g::just<long long>(0)}, {4, sized(1, 40)}, {2, g::elementOf(std::vector<long long>{126, 127, 128, 129, 200, 254, 255})}});
+    return g::weightedOneOf<long long>({{5, g::just<long long>(0)}, {4, sized(1, 40)}, {2, g::elementOf(std::vector<long long>{126, 127, 128, 129, 200, 254, 255})}, {2, uni(1, 255)}});
 }
 static rc::Gen<long long> dimEntry() {
     return g::weightedOneOf<long long>({{11, g::elementOf(std::vector<long long>{1, 2, 3})}, {3, g::just<long long>(0)},
@@ -42,7 +42,7 @@ static rc::Gen<Op> gParam(bool bad) {
     // nd == 0: delta is the element count
     auto nd = g::weightedOneOf<long long>({{4, g::just<long long>(0)}, {3, g::just<long long>(1)}, {3, g::just<long long>(2)}, {2, g::just<long long>(3)}, {2, uni(4, 7)}});
     return g::mapcat(nd, [=](long long ndv) {
-        std::vector<rc::Gen<long long>> a = {grp, name, type, uni(0, 1), descLen(), seedv(),
+        std::vector<rc::Gen<long long>> a = {grp, name, type, g::weightedOneOf<long long>({{3, uni(0, 1)}, {1, uni(2, 3)}}), descLen(), seedv(),
                                              ndv == 0 ? g::weightedOneOf<long long>({{3, g::just<long long>(1)}, {3, sized(0, 12)}, {1, g::just<long long>(0)}}) : delta,
                                              g::just(ndv)};
         for (long long i = 0; i < ndv; ++i) a.push_back(dimEntry());
@@ -107,6 +107,8 @@ static rc::Gen<Op> gEditOp(const ScriptCfg &c) {
         {1, op("unlockg", {sized(0, 9)})},
     };
     if (c.lateDecl) { w.push_back({3, op("declp", {nameIdx(), trail()})}); w.push_back({3, op("decla", {nameIdx(), trail()})}); }
+    w.push_back({2, op("selfsub", {sized(0, 20), uni(0, c.extend ? 2 : 1), sized(0, 20)})});     // a stored frame handed back to its own object
+    w.push_back({1, op("pflip", {sized(3, 9), sized(0, 14), seedv()})});
     if (c.lateRates) { w.push_back({1, op("prate", {uni(0, kNumRates - 1)})}); w.push_back({1, op("arate", {sized(0, 9)})}); w.push_back({2, op("pratex", {uni(0, kNumRates - 1), uni(-9, 9)})}); }
     if (c.callerReuse) {
         w.push_back({4, op("fmut", {uni(0, 3), uni(0, 4), seedv()})});
